@@ -170,6 +170,8 @@ pub struct QObs {
     pub recursive: bool,
     pub started_ms: u64,
     pub elapsed_ms: u64,
+    /// Length of the clock stalls injected while this question was resolved.
+    pub stall_ms: u64,
     pub result: Result<ResolvedRecord, ResolutionError>,
     /// Index ranges into the run-wide logs covering this question.
     pub exchanges: std::ops::Range<usize>,
@@ -202,7 +204,7 @@ pub struct Observations {
 }
 
 pub fn snapshot_cache(cache: &SharedCache) -> Vec<CachedRec> {
-    let now = simseam::clock::elapsed_nanos();
+    let now = simseam::clock::code_now_nanos();
     let snap = cache.verif_snapshot();
     let mut out = Vec::new();
     for (name, _, _, _, records) in snap.partitions {
@@ -254,6 +256,7 @@ pub fn run(plan: &ResolvePlan, exec: &Exec, want_log: bool) -> Observations {
     let obs = rt.block_on(async {
         simseam::clock::use_tokio();
         install_world(exec, &plan.knobs.faults, &plan.knobs.params, want_log);
+        simseam::clock::enable_stalls(plan.knobs.faults.get("clock.stall").is_some_and(|p| *p > 0.0));
         let forwarder: Option<SocketAddr> = if plan.knobs.mode == "forwarding" {
             Some(FORWARDER.parse().unwrap())
         } else {
@@ -315,6 +318,7 @@ pub fn run(plan: &ResolvePlan, exec: &Exec, want_log: bool) -> Observations {
                 world::with(|w| w.net.lives.len()),
             );
             let started_ms = simseam::clock::elapsed_ms();
+            let skew0 = simseam::clock::skew_nanos();
             world::with(|w| w.log_event("resolve.start", &format!("{ctx} {q} rd={}", qp.recursive)));
             let (_metrics, result) = dns_resolver::resolve(
                 qp.recursive,
@@ -341,6 +345,7 @@ pub fn run(plan: &ResolvePlan, exec: &Exec, want_log: bool) -> Observations {
                 recursive: qp.recursive,
                 started_ms,
                 elapsed_ms,
+                stall_ms: (simseam::clock::skew_nanos() - skew0).div_ceil(1_000_000),
                 result,
                 exchanges: e0..net.borrow().exchanges.len(),
                 dests: d0..world::with(|w| w.net.dests.len()),
